@@ -16,7 +16,9 @@ CONFIG = {
             "with attached payloads, bundles (with equivocation pairs, short bundles), payloads, timeouts, fast timeouts, round interruptions, "
             "checkpoints, pipelined next-round and stale/old-round messages, equivocators, error/cancel flags; state-aware generator "
             "(steers tallies over thresholds, replays the verify-request/verified round trip) under 6 scenario biases and directed prefixes "
-            "(happy round, late payload after the certificate, next-threshold period changes, late credentials, stale cert bundle). One case = "
+            "(happy round, late payload after the certificate, next-threshold period changes, late credentials, stale cert bundle, and a directed "
+            "cert-step equivocation schedule: X votes the winning value then equivocates, Z equivocates from another value, stale copies in random "
+            "order, honest fillers chosen so that the quorum is crossed only with the equivocators' weight; dominant in the search phase). One case = "
             "one script; per event the full action list and the full state (player + every tracker/store of the router tree) are compared with "
             "the model, and spec_ok recomputes C03 on every observed ensureAction from the raw delivered-vote list of the script. A case is "
             "non-trivial when the implementation emitted at least one ensureAction; distinct = distinct case lines.",
